@@ -1139,3 +1139,40 @@ func (e *Engine) jsonNumberType() types.Type {
 	}
 	return nil
 }
+
+// docHasStringToken: does the JSON text of d contain the quoted token "word"
+// (word without characters that need escaping)? That is the case exactly when
+// some member name or some string value of the tree equals word.
+func (e *Engine) docHasStringToken(d *Doc, word string) Value {
+	switch d.kind {
+	case DSym:
+		panic(engineErr("substring search in an arbitrary document is not modelled"))
+	case DObj:
+		var r Value = false
+		for i, k := range d.keys {
+			if k == word {
+				return true
+			}
+			r = e.orV(r, e.docHasStringToken(d.vals[i], word))
+		}
+		return r
+	case DArr:
+		var r Value = false
+		for _, el := range d.elems {
+			r = e.orV(r, e.docHasStringToken(el, word))
+		}
+		return r
+	case DStr:
+		switch l := d.leaf.(type) {
+		case *OpaqueStr:
+			if l.Tag == "doc" {
+				// a document spliced in as a string would be escaped: its quotes are not token quotes
+				return false
+			}
+			return false
+		default:
+			return e.strBinop(token.EQL, l, word)
+		}
+	}
+	return false
+}
